@@ -20,7 +20,7 @@ from mmv import util
 PROP = 'C08'
 LEVEL = 'exploration'
 RULE = ('Random histories of 1-40 operations on one real TBRMMDiagnostics object over {set control series, '
-        'set treatment series, clear control series, set a wrong-length control series (must raise and '
+        'set treatment series (also through one re-used ndarray work buffer that is later edited in place), clear control series, set a wrong-length control series (must raise and '
         'change nothing), read corr / required_impact / pretestfit / bbtest / dwtest / aatest / corr_test / '
         'tests_ok / tbrfit / estimate_required_impact}. The series pool holds controls that pass all tests, '
         'fail only the correlation test, only Durbin-Watson, only Brownian-bridge, only A/A, so successive '
@@ -32,9 +32,9 @@ ASSUMPTIONS = ['fresh-object reference = the same source files loaded a second t
                'a fresh object, which is what the property states)',
                'icontract 2.7.3 checks invariants after __init__, around public methods and property accessors']
 EXHAUSTIVE = {'quick': False, 'thorough': False}
-MINIMA = {'quick': {'diag_invariant': 5000, 'reads_compared': 3000, 'set:bigrams': 60, 'distinct_nontrivial': 150,
+MINIMA = {'quick': {'buffer_mutations': 200, 'diag_invariant': 5000, 'reads_compared': 3000, 'set:bigrams': 60, 'distinct_nontrivial': 150,
                     'insitu_searches': 10},
-          'thorough': {'diag_invariant': 100000, 'reads_compared': 50000, 'set:bigrams': 100, 'distinct_nontrivial': 2000,
+          'thorough': {'buffer_mutations': 3000, 'diag_invariant': 100000, 'reads_compared': 50000, 'set:bigrams': 100, 'distinct_nontrivial': 2000,
                        'insitu_searches': 80}}
 N_HIST = {'quick': 800, 'thorough': 8000}
 N_INSITU = {'quick': 24, 'thorough': 160}
@@ -151,6 +151,8 @@ def run_history(spec, r, g):
   ys, pool = make_pool(r, g, n, n_test)
   ys_short = [y[:max(3, n - 4)] for y in ys]
   names = sorted(pool)
+  xbuf = np.array(pool['good'], dtype=float)
+  ybuf = np.array(ys[0], dtype=float)
   counters = collections.Counter()
   violations = []
   ops_log = []
@@ -169,7 +171,13 @@ def run_history(spec, r, g):
   epoch = 0
   for step in range(L):
     u = r.random()
-    if u < 0.30:
+    if u < 0.06:
+      op = ('set_x_buffer', r.choice(names))
+    elif u < 0.10:
+      op = ('set_y_buffer', r.randrange(0, 2))
+    elif u < 0.14:
+      op = ('mutate_buffers',)
+    elif u < 0.30:
       op = ('set_x', r.choice(names))
     elif u < 0.37:
       op = ('set_y', r.randrange(0, 4))
@@ -195,6 +203,25 @@ def run_history(spec, r, g):
         obj.x = x
         cur_x = np.array(x)
         epoch += 1
+      elif op[0] == 'set_x_buffer':
+        # the caller re-uses one work buffer (same ndarray object) for successive control series
+        if len(cur_y) == n:
+          xbuf[:] = pool[op[1]]
+          obj.x = xbuf
+          cur_x = xbuf.copy()
+          epoch += 1
+      elif op[0] == 'set_y_buffer':
+        ybuf[:] = ys[op[1]]
+        obj.y = ybuf
+        cur_y, cur_x = ybuf.copy(), None
+        epoch += 1
+      elif op[0] == 'mutate_buffers':
+        # in-place edits of arrays the caller passed earlier must not reach the object (it holds the series
+        # it was given at assignment time)
+        xbuf *= 1.0 + 0.01 * r.random()
+        xbuf += r.choice([0.0, 3.0])
+        ybuf[::2] += 0.5
+        counters['buffer_mutations'] += 1
       elif op[0] == 'set_y':
         y = (ys + ys_short)[op[1]]
         obj.y = y
